@@ -587,7 +587,7 @@ func cmdCheck(args []string) int {
 	fmt.Printf("verif: built worker from /repo working tree (rewritten tree %s) in %.1fs\n", b.tree, time.Since(t0).Seconds())
 
 	findings := loadFindings()
-	deadline := time.Now().Add(time.Duration(*budget) * time.Second)
+	var deadline time.Time
 	var all []*Result
 	var prev []*Result
 	groups := map[string]*vgroup{}
@@ -607,6 +607,10 @@ func cmdCheck(args []string) int {
 			break
 		}
 		planned += len(specs)
+		if deadline.IsZero() {
+			// the budget is for running, not for planning
+			deadline = time.Now().Add(time.Duration(*budget) * time.Second)
+		}
 		var stageRes []*Result
 		done := b.runAll(specs, meta.Race && specRace(specs), deadline, 6, func(r *Result) {
 			stageRes = append(stageRes, r)
@@ -680,6 +684,10 @@ func cmdCheck(args []string) int {
 				exit = 2
 			}
 		}
+	}
+	if evals == 0 && exit == 0 {
+		fmt.Fprintln(os.Stderr, "verif: not a single run produced a verdict: treating the check as broken (exit 2)")
+		exit = 2
 	}
 	writeEvidence(prop, *tier, *seed, meta, b, all, groups, evals, planned, infra, truncated, time.Since(t0))
 	fmt.Printf("verif: property=%s evaluations=%d planned=%d no-verdict=%d violations=%d wall=%.1fs exit=%d\n", prop, evals, planned, infra, countNew(groups), time.Since(t0).Seconds(), exit)
